@@ -316,15 +316,60 @@ func c39ReplicaTag(cl *kafscalev1alpha1.KafscaleCluster) string {
 	return strconv.Itoa(int(*cl.Spec.Brokers.Replicas))
 }
 
+// ---------------------------------------------------------------- bucket derivation sweep (second phase of the render leg)
+
+func c39BucketSweep(r *verifkit.Run) {
+	opSetEnv(nil)
+	check := func(ns, name string, sample bool) {
+		cl := &kafscalev1alpha1.KafscaleCluster{ObjectMeta: metav1.ObjectMeta{Namespace: ns, Name: name}}
+		for _, b := range []string{snapshotBucket(cl), defaultEtcdSnapshotBucket(cl)} {
+			r.Seen("bucket_lengths", strconv.Itoa(len(b)))
+			r.Count("bucket_names_checked", 1)
+			if len(b) > 60 {
+				r.Count("bucket_names_longer_than_60", 1)
+			}
+			if p := c39BucketProblem(b); p != "" {
+				r.Violation("snapshot_bucket_"+p, fmt.Sprintf("derived etcd snapshot bucket %q (%d chars) for namespace %q (%d) name %q (%d) is not a valid S3 bucket name: %s", b, len(b), ns, len(ns), name, len(name), p),
+					map[string]any{"namespace": ns, "name": name, "bucket": b, "bucket_len": len(b)})
+			}
+		}
+		r.Case(ns+"/"+name, ns != "" && name != "")
+		if sample {
+			r.Sample(map[string]any{"namespace": ns, "name": name, "bucket": snapshotBucket(cl)})
+		}
+	}
+	check("production-kafka-platform", "orders-streaming-cluster", false) // 64: the smallest realistic witness
+	check("production-kafka-platform", "orders-streaming-cluste", false)  // 63: valid
+	check("default", "demo", false)
+	// systematic: all length pairs with len(ns) in 1..63 and the name placing the bucket at 58..68 chars
+	rng := r.Rand(1 << 20)
+	for lns := 1; lns <= 63; lns++ {
+		for total := 58; total <= 68; total++ {
+			lname := total - len(defaultSnapshotBucketPrefix) - 2 - lns
+			if lname < 1 {
+				continue
+			}
+			check(opLabel(rng, lns), opSubdomain(rng, lname, lname%3 == 0), lns == 20 && total == 63)
+		}
+	}
+	n := r.N(3000, 60000)
+	for ci := 1; ci <= n; ci++ {
+		rng := r.Rand(1<<20 + ci)
+		ns, name := opGenNames(rng)
+		check(ns, name, ci <= 2)
+	}
+	r.Floor("bucket_names_longer_than_60", 100)
+}
+
 // ---------------------------------------------------------------- leg 1: render (managed etcd, no network)
 
 func TestVerifC39Render(t *testing.T) {
 	r := verifkit.Start(t, "C39", "render")
-	defer r.Finish("[sub-reconcilers + BuildClusterMetadata, managed etcd so the snapshot CronJob/restore containers are rendered] "+c39Rule, c39Assumptions...)
+	defer r.Finish("[sub-reconcilers + BuildClusterMetadata, managed etcd so the snapshot CronJob/restore containers are rendered] "+c39Rule+" ;; [bucket sweep] every (namespace,name) length pair that puts the derived name at 58..68 chars plus thousands of PRNG RFC-1123 names go through the operator's own snapshotBucket()/defaultEtcdSnapshotBucket() and must match the same grammar", c39Assumptions...)
 	opRegisterEnv(t)
 	scheme := opScheme(t)
 	ctx := context.Background()
-	n := r.N(300, 8000)
+	n := r.N(500, 8000)
 	directed := opDirected()
 	for ci := 0; ci < n; ci++ {
 		rng := r.Rand(ci)
@@ -379,6 +424,7 @@ func TestVerifC39Render(t *testing.T) {
 			r.Sample(opDescribe(oc))
 		}
 	}
+	c39BucketSweep(r)
 	r.Floor("replicas_nil", 10)
 	r.Floor("replicas_0", 5)
 	r.Floor("replicas_1", 10)
@@ -389,61 +435,76 @@ func TestVerifC39Render(t *testing.T) {
 	r.Floor("bucket_names_checked", 100)
 }
 
-// ---------------------------------------------------------------- leg 2: bucket derivation sweep
-
-func TestVerifC39Bucket(t *testing.T) {
-	r := verifkit.Start(t, "C39", "bucket")
-	defer r.Finish("every (namespace,name) length pair around the 63-char boundary plus PRNG RFC-1123 names up to 63/253 chars go through the operator's own snapshotBucket()/defaultEtcdSnapshotBucket(); each result must match the S3 bucket grammar (3-63, [a-z0-9.-], alnum ends, no '..', not an IP); non-trivial = both namespace and name contributed to the name", c39Assumptions...)
-	opRegisterEnv(t)
-	opSetEnv(nil)
-	check := func(ns, name string, sample bool) {
-		cl := &kafscalev1alpha1.KafscaleCluster{ObjectMeta: metav1.ObjectMeta{Namespace: ns, Name: name}}
-		for _, b := range []string{snapshotBucket(cl), defaultEtcdSnapshotBucket(cl)} {
-			r.Seen("bucket_lengths", strconv.Itoa(len(b)))
-			r.Count("bucket_names_checked", 1)
-			if len(b) > 60 {
-				r.Count("bucket_names_longer_than_60", 1)
-			}
-			if p := c39BucketProblem(b); p != "" {
-				r.Violation("snapshot_bucket_"+p, fmt.Sprintf("derived etcd snapshot bucket %q (%d chars) for namespace %q (%d) name %q (%d) is not a valid S3 bucket name: %s", b, len(b), ns, len(ns), name, len(name), p),
-					map[string]any{"namespace": ns, "name": name, "bucket": b, "bucket_len": len(b)})
-			}
-		}
-		r.Case(ns+"/"+name, ns != "" && name != "")
-		if sample {
-			r.Sample(map[string]any{"namespace": ns, "name": name, "bucket": snapshotBucket(cl)})
-		}
-	}
-	check("production-kafka-platform", "orders-streaming-cluster", false) // 64: the smallest realistic witness
-	check("production-kafka-platform", "orders-streaming-cluste", false)  // 63: valid
-	check("default", "demo", false)
-	// systematic: all length pairs with len(ns) in 1..63 and the name placing the bucket at 58..68 chars
-	rng := r.Rand(0)
-	for lns := 1; lns <= 63; lns++ {
-		for total := 58; total <= 68; total++ {
-			lname := total - len(defaultSnapshotBucketPrefix) - 2 - lns
-			if lname < 1 {
-				continue
-			}
-			check(opLabel(rng, lns), opSubdomain(rng, lname, lname%3 == 0), lns == 20 && total == 63)
-		}
-	}
-	n := r.N(3000, 60000)
-	for ci := 1; ci <= n; ci++ {
-		rng := r.Rand(ci)
-		ns, name := opGenNames(rng)
-		check(ns, name, ci <= 2)
-	}
-	r.Floor("bucket_names_longer_than_60", 100)
-}
-
-// ---------------------------------------------------------------- leg 3: full Reconcile, metadata read back from etcd
+// ---------------------------------------------------------------- leg 2: full Reconcile, metadata read back from etcd
 
 const c39SnapshotKey = "/kafscale/metadata/snapshot"
 
+// c39ReadSnapshot reads the published metadata back from etcd.
+func c39ReadSnapshot(ctx context.Context, r *verifkit.Run, cli *clientv3.Client, oc *opCase, ci int) (metadata.ClusterMetadata, string, bool) {
+	var meta metadata.ClusterMetadata
+	gctx, gcancel := context.WithTimeout(ctx, 20*time.Second)
+	resp, gerr := cli.Get(gctx, c39SnapshotKey)
+	gcancel()
+	if gerr != nil || len(resp.Kvs) != 1 {
+		r.Inconclusive(fmt.Sprintf("case %d: snapshot not readable: %v", ci, gerr))
+		return meta, "", false
+	}
+	if err := json.Unmarshal(resp.Kvs[0].Value, &meta); err != nil {
+		r.Violation("published_snapshot_not_decodable", fmt.Sprintf("snapshot JSON does not decode: %v", err), opDescribe(oc))
+		return meta, "", false
+	}
+	return meta, string(resp.Kvs[0].Value), true
+}
+
+// c39ScaleDownProbe is an observation, never a violation (the statement
+// quantifies over one spec and topic set, not over histories): the topic
+// resources are removed and the cluster is scaled to one broker; the operator
+// merges topics it no longer knows from the previous snapshot, with the
+// leaders they had.
+func c39ScaleDownProbe(ctx context.Context, t *testing.T, r *verifkit.Run, cli *clientv3.Client, c client.Client, rc *ClusterReconciler, oc *opCase, stored *kafscalev1alpha1.KafscaleCluster, ci int) {
+	if stored.Spec.Brokers.Replicas == nil || *stored.Spec.Brokers.Replicas < 2 || len(oc.Topics) == 0 {
+		return
+	}
+	for _, tp := range oc.Topics {
+		_ = c.Delete(ctx, tp.DeepCopy())
+	}
+	var cur kafscalev1alpha1.KafscaleCluster
+	key := types.NamespacedName{Namespace: stored.Namespace, Name: stored.Name}
+	if err := c.Get(ctx, key, &cur); err != nil {
+		return
+	}
+	cur.Spec.Brokers.Replicas = opI32(1)
+	if err := c.Update(ctx, &cur); err != nil {
+		return
+	}
+	rctx, cancel := context.WithTimeout(ctx, 60*time.Second)
+	res, err := rc.Reconcile(rctx, reconcile.Request{NamespacedName: key})
+	cancel()
+	if err != nil || res.RequeueAfter != 0 {
+		return
+	}
+	meta, _, ok := c39ReadSnapshot(ctx, r, cli, oc, ci)
+	if !ok {
+		return
+	}
+	r.Count("obs_scale_down_probes", 1)
+	ids := map[int32]bool{}
+	for _, b := range meta.Brokers {
+		ids[b.NodeID] = true
+	}
+	for _, tp := range meta.Topics {
+		for _, p := range tp.Partitions {
+			if !ids[p.Leader] {
+				r.Count("obs_merged_topic_leader_outside_brokers", 1)
+				return
+			}
+		}
+	}
+}
+
 func TestVerifC39Publish(t *testing.T) {
 	r := verifkit.Start(t, "C39", "publish")
-	defer r.Finish("[full ClusterReconciler.Reconcile with an external-etcd spec against an embedded etcd; the metadata judged is the JSON read back from "+c39SnapshotKey+"] "+c39Rule, c39Assumptions...)
+	defer r.Finish("[full ClusterReconciler.Reconcile, then TopicReconciler.Reconcile, with an external-etcd spec against an embedded etcd; the metadata judged is the JSON read back from "+c39SnapshotKey+" after each; a scale-down-after-topic-removal probe is observation only (obs_*)] "+c39Rule, c39Assumptions...)
 	opRegisterEnv(t)
 	endpoints := testutil.StartEmbeddedEtcd(t)
 	cli, err := clientv3.New(clientv3.Config{Endpoints: endpoints, DialTimeout: 5 * time.Second})
@@ -453,7 +514,7 @@ func TestVerifC39Publish(t *testing.T) {
 	defer cli.Close()
 	scheme := opScheme(t)
 	ctx := context.Background()
-	n := r.N(60, 1500)
+	n := r.N(80, 1200)
 	directed := opDirected()
 	for ci := 0; ci < n; ci++ {
 		rng := r.Rand(ci)
@@ -483,16 +544,8 @@ func TestVerifC39Publish(t *testing.T) {
 			r.Inconclusive(fmt.Sprintf("case %d: Reconcile did not publish: err=%v requeue=%v", ci, rerr, res.RequeueAfter))
 			continue
 		}
-		gctx, gcancel := context.WithTimeout(ctx, 20*time.Second)
-		resp, gerr := cli.Get(gctx, c39SnapshotKey)
-		gcancel()
-		if gerr != nil || len(resp.Kvs) != 1 {
-			r.Inconclusive(fmt.Sprintf("case %d: snapshot not readable: %v", ci, gerr))
-			continue
-		}
-		var meta metadata.ClusterMetadata
-		if err := json.Unmarshal(resp.Kvs[0].Value, &meta); err != nil {
-			r.Violation("published_snapshot_not_decodable", fmt.Sprintf("snapshot JSON does not decode: %v", err), opDescribe(oc))
+		meta, raw, ok := c39ReadSnapshot(ctx, r, cli, oc, ci)
+		if !ok {
 			continue
 		}
 		var stored kafscalev1alpha1.KafscaleCluster
@@ -509,6 +562,26 @@ func TestVerifC39Publish(t *testing.T) {
 				}
 			}
 		}
+		// the topic controller publishes through the same code: judge what it leaves in etcd as well
+		if len(oc.Topics) > 0 {
+			dctx, cancel := context.WithTimeout(ctx, 20*time.Second)
+			_, derr := cli.Delete(dctx, c39SnapshotKey)
+			cancel()
+			tr := &TopicReconciler{Client: c, Scheme: scheme, Publisher: NewSnapshotPublisher(c)}
+			tp := oc.Topics[rng.Intn(len(oc.Topics))]
+			tctx, tcancel := context.WithTimeout(ctx, 60*time.Second)
+			tres, terr := tr.Reconcile(tctx, reconcile.Request{NamespacedName: types.NamespacedName{Namespace: tp.Namespace, Name: tp.Name}})
+			tcancel()
+			if derr == nil && terr == nil && tres.RequeueAfter == 0 {
+				if m2, _, ok := c39ReadSnapshot(ctx, r, cli, oc, ci); ok {
+					c39Judge(r, oc, rd, m2, "TopicReconciler -> etcd "+c39SnapshotKey)
+					r.Count("published_via_topic_reconciler", 1)
+				}
+			} else {
+				r.Inconclusive(fmt.Sprintf("case %d: TopicReconciler did not publish: %v %v", ci, derr, terr))
+			}
+		}
+		c39ScaleDownProbe(ctx, t, r, cli, c, rc, oc, &stored, ci)
 		r.Case(verifkit.Hash(opDescribe(oc)), v.nontrivial)
 		r.Count("replicas_"+c39ReplicaTag(oc.Cluster), 1)
 		r.Count("published", 1)
@@ -516,9 +589,10 @@ func TestVerifC39Publish(t *testing.T) {
 			r.Count("host_"+v.hostKind, 1)
 		}
 		if ci < 1 {
-			r.Sample(map[string]any{"case": opDescribe(oc), "snapshot": string(resp.Kvs[0].Value)})
+			r.Sample(map[string]any{"case": opDescribe(oc), "snapshot": raw})
 		}
 	}
 	r.Floor("published", int64(n*9/10))
+	r.Floor("published_via_topic_reconciler", int64(n/2))
 	r.Floor("partitions_checked", 50)
 }
